@@ -3,7 +3,13 @@
 // Pairs (M, UPPER(M)) are discovered by reflection on every scalar / vector /
 // matrix type; operands are enumerated exhaustively from small lattices; both
 // variants run on separately built, equal operands and the complete public state
-// of receiver, operands and return value must agree.
+// of receiver, operands and return value must agree. "Equal operands" includes
+// calls in which one object is passed in several positions (r.ADD(r, b),
+// v.VADDV(v, w), m.MDOTM(m, b), r.MUL(a, a)): for every pair all alias
+// configurations of {receiver, operands} that the parameter types allow are
+// enumerated as well, both worlds built with the same configuration. This is a
+// pure generic-vs-concrete differential; whether an aliased call computes the
+// alias-free result is C08's question.
 package main
 
 import (
@@ -27,9 +33,9 @@ type family struct {
 }
 
 var (
-	scalarOf = map[reflect.Type]family{}
-	vectorOf = map[reflect.Type]family{}
-	matrixOf = map[reflect.Type]family{}
+	scalarOf     = map[reflect.Type]family{}
+	vectorOf     = map[reflect.Type]family{}
+	matrixOf     = map[reflect.Type]family{}
 	tConstVector = reflect.TypeOf((*ad.ConstVector)(nil)).Elem()
 	tConstMatrix = reflect.TypeOf((*ad.ConstMatrix)(nil)).Elem()
 	tConstScalar = reflect.TypeOf((*ad.ConstScalar)(nil)).Elem()
@@ -197,6 +203,86 @@ type Case struct {
 	Con  string `json:"concrete"`
 	R    Obj    `json:"receiver"`
 	A    []Obj  `json:"args"`
+	// Alias: block id per slot (slot 0 = receiver, slot k = argument k-1); slots
+	// with equal ids are ONE object passed in several positions. nil = all distinct.
+	Alias []int `json:"alias,omitempty"`
+}
+
+var slotNames = []string{"r", "a", "b", "c", "d", "e", "f"}
+
+// aliasString names the multi-member blocks of an alias vector ("r=a", "a=b",
+// "r=a=b", "r=b,a=c"); "" when every slot is its own object.
+func aliasString(alias []int) string {
+	if alias == nil {
+		return ""
+	}
+	var parts []string
+	done := map[int]bool{}
+	for i, b := range alias {
+		if done[b] {
+			continue
+		}
+		done[b] = true
+		m := []string{slotNames[i]}
+		for j := i + 1; j < len(alias); j++ {
+			if alias[j] == b {
+				m = append(m, slotNames[j])
+			}
+		}
+		if len(m) > 1 {
+			parts = append(parts, strings.Join(m, "="))
+		}
+	}
+	return strings.Join(parts, ",")
+}
+
+// checkAlias: an alias vector is well formed when it covers every slot and
+// only joins slots with identical specifications.
+func checkAlias(cs Case) error {
+	if cs.Alias == nil {
+		return nil
+	}
+	if len(cs.Alias) != 1+len(cs.A) {
+		return fmt.Errorf("alias vector of length %d for %d slots", len(cs.Alias), 1+len(cs.A))
+	}
+	specs := append([]Obj{cs.R}, cs.A...)
+	for i := range specs {
+		for j := 0; j < i; j++ {
+			if cs.Alias[i] == cs.Alias[j] {
+				if specs[i].K == "f" || specs[i].K == "i" || !reflect.DeepEqual(specs[i], specs[j]) {
+					return fmt.Errorf("alias joins slots %d and %d with different specifications", j, i)
+				}
+			}
+		}
+	}
+	return nil
+}
+
+// buildWorld builds receiver and arguments of a case: one fresh object per
+// alias block, passed in every slot of the block.
+func buildWorld(cs Case) (any, []any) {
+	r := build(cs.R)
+	as := make([]any, len(cs.A))
+	for i, a := range cs.A {
+		if cs.Alias != nil {
+			if cs.Alias[i+1] == cs.Alias[0] {
+				as[i] = r
+				continue
+			}
+			shared := false
+			for j := 0; j < i; j++ {
+				if cs.Alias[j+1] == cs.Alias[i+1] {
+					as[i], shared = as[j], true
+					break
+				}
+			}
+			if shared {
+				continue
+			}
+		}
+		as[i] = build(a)
+	}
+	return r, as
 }
 
 func build(o Obj) any {
@@ -309,9 +395,9 @@ type observation struct {
 	panicked string // "" or class
 	pmsg     string
 	ret      string
-	state    string // receiver + args after the call
+	state    string   // receiver + args after the call
 	relems   []string // receiver, element by element
-	probe    string // receiver + args after writing through the return value
+	probe    string   // receiver + args after writing through the return value
 }
 
 // writeThrough stores 9 into every element of a returned scalar/container so
@@ -400,12 +486,22 @@ func runVariant(m reflect.Method, recv any, args []any) (o observation) {
 	o.ret = strings.Join(rs, " ; ")
 	o.state = stateOf()
 	o.relems = elemsOf(recv)
+	wrote := false
 	for _, x := range rets {
 		if !sameObject(x, recv) {
-			writeThrough(x)
+			switch x.(type) {
+			case ad.Matrix, ad.Vector, ad.Scalar:
+				writeThrough(x)
+				wrote = true
+			}
 		}
 	}
-	o.probe = stateOf()
+	// nothing written (the call returned the receiver itself or plain values):
+	// the state is what was just observed
+	o.probe = o.state
+	if wrote {
+		o.probe = stateOf()
+	}
 	return
 }
 
@@ -564,16 +660,8 @@ func methodsOf(cs Case) (gen, con reflect.Method, recvT reflect.Type, ok bool) {
 
 // runCase returns ("","") if both variants agree.
 func runCase(gen, con reflect.Method, cs Case) (key, what, outcome string) {
-	mk := func() (any, []any) {
-		r := build(cs.R)
-		as := make([]any, len(cs.A))
-		for i, a := range cs.A {
-			as[i] = build(a)
-		}
-		return r, as
-	}
-	r1, a1 := mk()
-	r2, a2 := mk()
+	r1, a1 := buildWorld(cs)
+	r2, a2 := buildWorld(cs)
 	og := runVariant(gen, r1, a1)
 	oc := runVariant(con, r2, a2)
 	diff, detail, class := "", "", ""
@@ -618,7 +706,11 @@ func runCase(gen, con reflect.Method, cs Case) (key, what, outcome string) {
 	default:
 		return "", "", "agree"
 	}
-	key = fmt.Sprintf("%s/%s|%s|%s|%s", cs.Gen, cs.Con, strings.TrimPrefix(strings.TrimPrefix(cs.Type, "*"), "autodiff."), class, diff)
+	tn := strings.TrimPrefix(strings.TrimPrefix(cs.Type, "*"), "autodiff.")
+	if al := aliasString(cs.Alias); al != "" {
+		tn += "|alias:" + al
+	}
+	key = fmt.Sprintf("%s/%s|%s|%s|%s", cs.Gen, cs.Con, tn, class, diff)
 	return key, detail, "differ:" + diff
 }
 
@@ -831,6 +923,45 @@ func intTuples(con string, fam family, rows, cols, nint int) [][]int {
 
 type shape struct{ r, c int }
 
+// aliasPartitions: every set partition of the slots whose multi-member blocks
+// join only slots of one non-empty class (= the same concrete type, so that one
+// object can be passed in all of them); the all-distinct partition comes first.
+func aliasPartitions(classes []string) [][]int {
+	var out [][]int
+	setPartitions(len(classes), func(blocks []int, nb int) {
+		for i := range blocks {
+			for j := 0; j < i; j++ {
+				if blocks[i] == blocks[j] && (classes[i] == "" || classes[i] != classes[j]) {
+					return
+				}
+			}
+		}
+		out = append(out, cp(blocks))
+	})
+	for i, j := 0, len(out)-1; i < j; i, j = i+1, j-1 {
+		out[i], out[j] = out[j], out[i]
+	}
+	return out
+}
+
+func blockCount(blocks []int) int {
+	n := 0
+	for _, b := range blocks {
+		if b+1 > n {
+			n = b + 1
+		}
+	}
+	return n
+}
+
+// aliasOrNil: the alias vector of a case (nil for the all-distinct partition)
+func aliasOrNil(blocks []int) []int {
+	if blockCount(blocks) == len(blocks) {
+		return nil
+	}
+	return cp(blocks)
+}
+
 func (x *explorer) shapesOf(kind string) []shape {
 	var out []shape
 	if kind == "v" {
@@ -863,7 +994,12 @@ func (x *explorer) emit(pr pairT, cs Case) {
 	c := x.c
 	c.Eval(1)
 	key, what, outcome := runCase(pr.gen, pr.con, cs)
-	c.Outcome(pr.fam.Kind + ":" + outcome)
+	if al := aliasString(cs.Alias); al != "" {
+		c.Outcome(pr.fam.Kind + ":aliased:" + outcome)
+		c.Count("aliased:"+pr.fam.Kind+":"+pr.con.Name+":"+al, 1)
+	} else {
+		c.Outcome(pr.fam.Kind + ":" + outcome)
+	}
 	c.Count("cases:"+pr.fam.Kind+":"+pr.con.Name, 1)
 	if outcome != "both-panic" {
 		c.Nontrivial(1)
@@ -883,14 +1019,20 @@ func (x *explorer) explorePair(pr pairT) {
 	if fam.Kind == "s" {
 		// scalar receiver, scalar / float arguments
 		var argGrids [][]Obj
+		// alias classes: slots of one class can be the same object
+		classes := make([]string, 1+len(pr.plan))
+		classes[0] = "s:" + fam.Elem.Name
 		for k, p := range pr.plan {
 			var g []Obj
 			switch p {
 			case "s":
 				ft := scalarOf[pr.con.Type.In(k+1)]
 				specs := scalarGrid(ft.Elem, false)
-				// a temporary (LOGADD/LOGSUB third operand) only needs prior contents
+				classes[k+1] = "s:" + ft.Elem.Name
+				// a temporary (LOGADD/LOGSUB third operand) only needs prior contents;
+				// it is scratch space that must be a dedicated object: never aliased
 				if (pr.con.Name == "LOGADD" || pr.con.Name == "LOGSUB") && k == 2 {
+					classes[k+1] = ""
 					specs = []SSpec{{V: "0"}}
 					if ft.Elem.Real {
 						specs = append(specs, SSpec{V: "5", K: 2, D: 2})
@@ -913,22 +1055,61 @@ func (x *explorer) explorePair(pr pairT) {
 			}
 			argGrids = append(argGrids, g)
 		}
-		for _, rs := range scalarGrid(fam.Elem, true) {
-			rs := rs
-			cs := base
-			cs.R = Obj{K: "s", T: fam.Elem.Name, S: &rs}
-			var rec func(k int, acc []Obj)
-			rec = func(k int, acc []Obj) {
-				if k == len(argGrids) {
-					cs.A = append([]Obj(nil), acc...)
+		toObjs := func(specs []SSpec) []Obj {
+			g := make([]Obj, len(specs))
+			for i := range specs {
+				g[i] = Obj{K: "s", T: fam.Elem.Name, S: &specs[i]}
+			}
+			return g
+		}
+		recvPrior := toObjs(scalarGrid(fam.Elem, true))
+		recvOperand := toObjs(scalarGrid(fam.Elem, false))
+		// every alias configuration of {receiver, scalar operands}; all distinct first
+		for _, blocks := range aliasPartitions(classes) {
+			blocks := blocks
+			nb, alias := blockCount(blocks), aliasOrNil(blocks)
+			grids := make([][]Obj, nb)
+			for b := 0; b < nb; b++ {
+				first, size := -1, 0
+				for i, bb := range blocks {
+					if bb == b {
+						if first < 0 {
+							first = i
+						}
+						size++
+					}
+				}
+				switch {
+				case first == 0 && size == 1:
+					grids[b] = recvPrior
+				case first == 0:
+					// the receiver is also an operand: its content is an operand value
+					grids[b] = recvOperand
+				default:
+					grids[b] = argGrids[first-1]
+				}
+			}
+			slots := make([]Obj, len(blocks))
+			var rec func(b int)
+			rec = func(b int) {
+				if b == nb {
+					cs := base
+					cs.R = slots[0]
+					cs.A = append([]Obj(nil), slots[1:]...)
+					cs.Alias = alias
 					x.emit(pr, cs)
 					return
 				}
-				for _, o := range argGrids[k] {
-					rec(k+1, append(acc, o))
+				for _, o := range grids[b] {
+					for i, bb := range blocks {
+						if bb == b {
+							slots[i] = o
+						}
+					}
+					rec(b + 1)
 				}
 			}
-			rec(0, nil)
+			rec(0)
 		}
 		return
 	}
@@ -963,21 +1144,38 @@ func (x *explorer) explorePair(pr pairT) {
 			alts = []bool{false, true}
 		}
 	}
+	slotFam := func(slot int, alt bool) family {
+		if slot == 0 {
+			return fam
+		}
+		return famOfParam(cont[slot-1], alt)
+	}
 	for _, alt := range alts {
-		for _, rshape := range x.shapesOf(fam.Kind) {
-			// shapes of container params
-			var shapeLists [][]shape
-			for _, k := range cont {
-				shapeLists = append(shapeLists, x.shapesOf(famOfParam(k, alt).Kind))
+		// alias classes of the container slots (receiver, container operands): slots
+		// of the same kind, element type and storage can be one object
+		classes := make([]string, 1+len(cont))
+		for i := range classes {
+			classes[i] = fmt.Sprint(slotFam(i, alt))
+		}
+		for _, blocks := range aliasPartitions(classes) {
+			blocks := blocks
+			nb := blockCount(blocks)
+			// one shape per block
+			shapeLists := make([][]shape, nb)
+			for i, b := range blocks {
+				if shapeLists[b] == nil {
+					shapeLists[b] = x.shapesOf(slotFam(i, alt).Kind)
+				}
 			}
-			var recS func(i int, acc []shape)
-			recS = func(i int, acc []shape) {
-				if i < len(shapeLists) {
-					for _, s := range shapeLists[i] {
-						recS(i+1, append(acc, s))
+			var recS func(b int, acc []shape)
+			recS = func(b int, acc []shape) {
+				if b < nb {
+					for _, s := range shapeLists[b] {
+						recS(b+1, append(acc, s))
 					}
 					return
 				}
+				rshape := acc[0]
 				if strings.Contains(pr.con.Name, "JOINT") {
 					// joint iteration is only defined over containers of equal shape
 					// (the iterators themselves do not check it)
@@ -987,8 +1185,12 @@ func (x *explorer) explorePair(pr pairT) {
 						}
 					}
 				}
+				cshapes := make([]shape, len(cont))
+				for i := range cont {
+					cshapes[i] = acc[blocks[i+1]]
+				}
 				for _, ints := range intTuples(pr.con.Name, fam, rshape.r, rshape.c, nint) {
-					x.exploreShape(pr, base, alt, rshape, acc, cont, ints, famOfParam)
+					x.exploreShape(pr, base, alt, rshape, cshapes, cont, ints, famOfParam, blocks)
 				}
 			}
 			recS(0, nil)
@@ -996,8 +1198,30 @@ func (x *explorer) explorePair(pr pairT) {
 	}
 }
 
-func (x *explorer) exploreShape(pr pairT, base Case, alt bool, rshape shape, cshapes []shape, cont []int, ints []int, famOfParam func(int, bool) family) {
+// exploreShape enumerates the contents for one shape tuple. blocks is the alias
+// partition of the container slots (slot 0 = receiver, slot i+1 = cont[i]).
+func (x *explorer) exploreShape(pr pairT, base Case, alt bool, rshape shape, cshapes []shape, cont []int, ints []int, famOfParam func(int, bool) family, blocks []int) {
 	fam := pr.fam
+	nb := blockCount(blocks)
+	aliased := nb < len(blocks)
+	if aliased {
+		// alias vector over all slots; non-container arguments are their own objects
+		al := make([]int, 1+len(pr.plan))
+		next := nb
+		for k := range pr.plan {
+			al[k+1] = -1
+		}
+		for i, k := range cont {
+			al[k+1] = blocks[i+1]
+		}
+		for k := range pr.plan {
+			if al[k+1] < 0 {
+				al[k+1] = next
+				next++
+			}
+		}
+		base.Alias = al
+	}
 	mkObj := func(f family, s shape, e []int) Obj {
 		if f.Kind == "v" {
 			return Obj{K: "v", T: f.Elem.Name, Sp: f.Sparse, Rows: s.r, E: e}
@@ -1036,11 +1260,7 @@ func (x *explorer) exploreShape(pr pairT, base Case, alt bool, rshape shape, csh
 	probe := base
 	probe.R = mkObj(fam, rshape, fill(cells(fam, rshape), eOne))
 	probe.A = append([]Obj(nil), args...)
-	r0 := build(probe.R)
-	a0 := make([]any, len(probe.A))
-	for i, a := range probe.A {
-		a0[i] = build(a)
-	}
+	r0, a0 := buildWorld(probe)
 	if o := runVariant(pr.gen, r0, a0); o.panicked != "" {
 		x.emit(pr, probe)
 		return
@@ -1058,18 +1278,40 @@ func (x *explorer) exploreShape(pr pairT, base Case, alt bool, rshape shape, csh
 	} else {
 		floats = [][]string{nil}
 	}
-	x.recvContents(pr, rshape.r, func() int {
-		if fam.Kind == "v" {
-			return 1
+	rcols := rshape.c
+	if fam.Kind == "v" {
+		rcols = 1
+	}
+	// the content of block 0 (the receiver's): prior content when the receiver is
+	// its own object, an operand value when it is also passed as an operand
+	recv := func(f func([]int)) {
+		if blocks[0] != 0 {
+			panic("slot 0 is not block 0")
 		}
-		return rshape.c
-	}(), func(re []int) {
+		alone := true
+		for _, b := range blocks[1:] {
+			if b == 0 {
+				alone = false
+			}
+		}
+		if alone {
+			x.recvContents(pr, rshape.r, rcols, f)
+		} else {
+			product(x.dataAlphabet(fam, rshape.r*rcols, 1), rshape.r*rcols, f)
+		}
+	}
+	recv(func(re []int) {
 		cs := base
 		cs.R = mkObj(fam, rshape, cp(re))
 		cur := append([]Obj(nil), args...)
-		var recC func(i int)
-		recC = func(i int) {
-			if i == len(cont) {
+		for i, k := range cont {
+			if blocks[i+1] == 0 {
+				cur[k] = cs.R
+			}
+		}
+		var recC func(b int)
+		recC = func(b int) {
+			if b == nb {
 				// scalar and float params
 				var recP func(j int)
 				recP = func(j int) {
@@ -1096,15 +1338,27 @@ func (x *explorer) exploreShape(pr pairT, base Case, alt bool, rshape shape, csh
 				recP(0)
 				return
 			}
-			k := cont[i]
-			f := famOfParam(k, alt)
-			n := cells(f, cshapes[i])
-			product(x.dataAlphabet(f, n, i+1), n, func(e []int) {
-				cur[k] = mkObj(f, cshapes[i], cp(e))
-				recC(i + 1)
+			// first container operand of block b
+			first := -1
+			for i := range cont {
+				if blocks[i+1] == b {
+					first = i
+					break
+				}
+			}
+			f := famOfParam(cont[first], alt)
+			n := cells(f, cshapes[first])
+			product(x.dataAlphabet(f, n, first+1), n, func(e []int) {
+				o := mkObj(f, cshapes[first], cp(e))
+				for i, k := range cont {
+					if blocks[i+1] == b {
+						cur[k] = o
+					}
+				}
+				recC(b + 1)
 			})
 		}
-		recC(0)
+		recC(1)
 	})
 }
 
@@ -1150,11 +1404,16 @@ func main() {
 		Level: "exploration",
 		Rule: "pairs (M, UPPER(M)) found by reflection on all 9 scalar, 18 vector and 18 matrix types (+14 immutable types scanned for twins); per pair every tuple of the operand lattices " +
 			"(scalars: boundary grid incl. +-Inf/NaN x jet order 0/1/2 x receiver prior sign/jet; containers: all shape tuples 0..D, every element pattern over {0/absent,1,-2,stored-zero,zero-with-derivative}, receiver prior {absent,stored-zero,junk}); " +
+			"additionally every alias configuration of {receiver, operands}: all set partitions in which one object is passed in several slots of the same concrete type (r=a, r=b, a=b, r=a=b; interface-typed operands holding the receiver's type), " +
+			"built identically in both worlds, shapes per block 0..D, contents of an aliased block from the operand lattice {0/absent,1,-2,stored-zero,zero-with-derivative} (scalars: the full operand grid); " +
 			"a case is non-trivial when at least one variant returns normally (both-panic shape/domain cases are counted separately as outcomes)",
 		Assume: []string{
 			"the sign of a floating-point zero is not part of the observable state (values compare with ==, NaN equals NaN)",
 			"AT_ is a deliberately different (non-allocating) accessor and not the twin of At",
 			"operands are built twice from the same specification instead of being cloned (does not depend on Clone)",
+			"aliased calls are compared generic against concrete only; whether the aliased result equals the alias-free result is property C08",
+			"the temporary operand of LogAdd/LogSub (LOGADD/LOGSUB) is scratch space and always a dedicated object",
+			"aliasing means passing the same object; overlapping views and a scalar operand that is an element of the receiver are not enumerated here (C08, C10)",
 		},
 		Run: run,
 		Replay: func(c *vf.Ctx, raw json.RawMessage) {
@@ -1162,6 +1421,10 @@ func main() {
 			var cs Case
 			if err := json.Unmarshal(raw, &cs); err != nil {
 				c.HarnessError(err.Error())
+				return
+			}
+			if err := checkAlias(cs); err != nil {
+				c.HarnessError("replay case: " + err.Error())
 				return
 			}
 			gen, con, _, ok := methodsOf(cs)
